@@ -577,6 +577,17 @@ func Stray() int64 { return stray }
 //go:norace
 func SetOpBudget(n int64) { budget = steps + n; aborting = false }
 
+// Charge advances the logical clock by n without being a yield point: the
+// driver charges for its own per-callback and per-byte work so that step
+// budgets bound the real cost of a run deterministically.
+//
+//go:norace
+func Charge(n int) {
+	if (mode == ModeSim || mode == ModeSolo) && isCurrent() {
+		steps += int64(n)
+	}
+}
+
 // Steps returns the global logical clock (yield points executed so far).
 //
 //go:norace
